@@ -407,6 +407,17 @@ def gen_universe(rng, n_roots=None, max_levels=3, rich=True, force_falsy=False):
             fresh_m = [m for m in mixin_names if m not in have]
             if fresh_m:
                 mix = sorted(set(mix) | {rng.choice(fresh_m)})
+        if mix:
+            # keep only mixin choices that give a consistent MRO (C3): e.g. B(A0(My), Mx) puts My before Mx, so a
+            # subclass C(B, Mx, My) would be rejected by Python itself
+            def consistent(mx):
+                try:
+                    Universe(classes + [ClassSpec(cname, base, [], mixins=mx)], enum_name, future, uid).linearize(cname)
+                    return True
+                except ValueError:
+                    return False
+            while mix and not consistent(mix):
+                mix = mix[:-1]
         if mix and base is not None and rng.random() < 0.4:
             own = []      # `class C(A, M): pass`: everything is inherited, part of it through the second base
         classes.append(ClassSpec(cname, base, own, falsy=rng.random() < 0.15, slots=False, mixins=mix))
